@@ -72,6 +72,7 @@ type rproc struct {
 	hist  bits
 	dead  bool
 	self  string // explicit provider name of the definition being executed ("" = none)
+	alias map[string]bool // names that denote the provider: continuations bound by a receive/case/shift on self
 }
 
 type Event struct {
@@ -97,7 +98,7 @@ func (r *Ref) freeBinds(p *rproc) []string {
 	FV(p.term, map[string]bool{}, out)
 	var names []string
 	for n := range out {
-		if p.self != "" && n == p.self {
+		if (p.self != "" && n == p.self) || p.alias[n] {
 			continue
 		}
 		b, ok := p.env[n]
@@ -139,14 +140,40 @@ func (r *Ref) isProv(p *rproc, n string) bool {
 	if n == "self" || n == "" || (p.self != "" && n == p.self) {
 		return true
 	}
-	if b, ok := p.env[n]; ok && len(p.provs) == 1 && b.c == p.provs[0] {
-		return true
+	return p.alias[n]
+}
+
+// unalias: a client-side binder spelled like an alias shadows it from here on.
+func (p *rproc) unalias(ns ...string) {
+	hit := false
+	for _, n := range ns {
+		if p.alias[n] {
+			hit = true
+		}
 	}
-	return false
+	if !hit {
+		return
+	}
+	m := map[string]bool{}
+	for k := range p.alias {
+		m[k] = true
+	}
+	for _, n := range ns {
+		delete(m, n)
+	}
+	p.alias = m
+}
+
+func (p *rproc) addAlias(n string) {
+	m := map[string]bool{n: true}
+	for k := range p.alias {
+		m[k] = true
+	}
+	p.alias = m
 }
 
 func (r *Ref) res(p *rproc, n string) bind {
-	if n == "self" || n == "" || (p.self != "" && n == p.self) {
+	if n == "self" || n == "" || (p.self != "" && n == p.self) || p.alias[n] {
 		return bind{c: p.provs[0]}
 	}
 	b, ok := p.env[n]
@@ -201,6 +228,7 @@ func (r *Ref) dup(p *rproc) {
 		}
 		np := r.spawn([]ch{p.provs[i]}, env, p.term, p.hist)
 		np.self = p.self
+		np.alias = p.alias
 	}
 	for _, f := range names {
 		b := p.env[f]
@@ -304,6 +332,7 @@ func (r *Ref) step(p *rproc) bool {
 			p.env[x.X] = bind{m.c1.c, x.XT}
 			p.env[x.Y] = bind{m.c2.c, x.YT}
 			p.provs = []ch{m.c2.c}
+			p.addAlias(x.Y)
 			p.term = x.K
 			return true
 		}
@@ -321,6 +350,7 @@ func (r *Ref) step(p *rproc) bool {
 		p.env = copyEnv(p.env)
 		p.env[x.X] = bind{m.c1.c, x.XT}
 		p.env[x.Y] = bind{m.c2.c, x.YT}
+		p.unalias(x.X, x.Y)
 		p.term = x.K
 		return true
 	case *Sel:
@@ -349,6 +379,7 @@ func (r *Ref) step(p *rproc) bool {
 					p.env = copyEnv(p.env)
 					p.env[b.Payload] = bind{m.c1.c, b.PT}
 					p.provs = []ch{m.c1.c}
+					p.addAlias(b.Payload)
 					p.term = b.K
 					return true
 				}
@@ -371,6 +402,7 @@ func (r *Ref) step(p *rproc) bool {
 			if b.Label == m.label {
 				p.env = copyEnv(p.env)
 				p.env[b.Payload] = bind{m.c1.c, b.PT}
+				p.unalias(b.Payload)
 				p.term = b.K
 				return true
 			}
@@ -401,6 +433,7 @@ func (r *Ref) step(p *rproc) bool {
 			p.env = copyEnv(p.env)
 			p.env[x.X] = bind{m.c1.c, x.XT}
 			p.provs = []ch{m.c1.c}
+			p.addAlias(x.X)
 			p.term = x.K
 			return true
 		}
@@ -417,6 +450,7 @@ func (r *Ref) step(p *rproc) bool {
 		p.hist = p.hist.or(m.hist)
 		p.env = copyEnv(p.env)
 		p.env[x.X] = bind{m.c1.c, x.XT}
+		p.unalias(x.X)
 		p.term = x.K
 		return true
 	case *New:
@@ -424,6 +458,7 @@ func (r *Ref) step(p *rproc) bool {
 		r.spawn([]ch{c}, copyEnv(p.env), x.Body, p.hist)
 		p.env = copyEnv(p.env)
 		p.env[x.X] = bind{c, x.XT}
+		p.unalias(x.X)
 		p.term = x.K
 		return true
 	case *Call:
@@ -438,6 +473,7 @@ func (r *Ref) step(p *rproc) bool {
 			env[q.N] = bind{b.c, q.T}
 		}
 		p.self = d.Prov // explicit provider name: a synonym of self inside this body
+		p.alias = nil
 		p.env = env
 		p.term = d.Body
 		return true
@@ -448,6 +484,7 @@ func (r *Ref) step(p *rproc) bool {
 		p.env = copyEnv(p.env)
 		p.env[x.X1] = bind{c1, x.T}
 		p.env[x.X2] = bind{c2, x.T}
+		p.unalias(x.X1, x.X2)
 		p.term = x.K
 		return true
 	case *Drop:
